@@ -5,6 +5,9 @@ package main
 // request must be answered exactly once — in particular after whatever came before it — and runts get silence.
 
 import (
+	"github.com/chihaya/chihaya/bittorrent"
+	"sync/atomic"
+	"context"
 	"encoding/binary"
 	"fmt"
 	"net"
@@ -76,7 +79,7 @@ func udpServed(c *Ctx, kinds []string) {
 		}
 		var res []string
 		for _, k := range kinds {
-			wait := 400 * time.Millisecond
+			wait := 1500 * time.Millisecond
 			switch k {
 			case "E":
 				_, _ = cl.Write([]byte{})
@@ -114,7 +117,133 @@ func udpServed(c *Ctx, kinds []string) {
 	c.Emit(op, obs)
 }
 
+// holdLogic parks announces inside HandleAnnounce while `hold` is armed
+type holdLogic struct {
+	inner interface {
+		HandleAnnounce(context.Context, *bittorrent.AnnounceRequest) (context.Context, *bittorrent.AnnounceResponse, error)
+		AfterAnnounce(context.Context, *bittorrent.AnnounceRequest, *bittorrent.AnnounceResponse)
+		HandleScrape(context.Context, *bittorrent.ScrapeRequest) (context.Context, *bittorrent.ScrapeResponse, error)
+		AfterScrape(context.Context, *bittorrent.ScrapeRequest, *bittorrent.ScrapeResponse)
+	}
+	hold    chan struct{}
+	entered int32
+}
+
+func (h *holdLogic) HandleAnnounce(ctx context.Context, req *bittorrent.AnnounceRequest) (context.Context, *bittorrent.AnnounceResponse, error) {
+	atomic.AddInt32(&h.entered, 1)
+	<-h.hold
+	return h.inner.HandleAnnounce(ctx, req)
+}
+func (h *holdLogic) AfterAnnounce(ctx context.Context, req *bittorrent.AnnounceRequest, resp *bittorrent.AnnounceResponse) {
+	h.inner.AfterAnnounce(ctx, req, resp)
+}
+func (h *holdLogic) HandleScrape(ctx context.Context, req *bittorrent.ScrapeRequest) (context.Context, *bittorrent.ScrapeResponse, error) {
+	return h.inner.HandleScrape(ctx, req)
+}
+func (h *holdLogic) AfterScrape(ctx context.Context, req *bittorrent.ScrapeRequest, resp *bittorrent.ScrapeResponse) {
+	h.inner.AfterScrape(ctx, req, resp)
+}
+
+// udp.overlap: through the real socket, an announce is parked inside the logic while an empty datagram and a
+// burst of connects arrive; every connect is answered with its own transaction ID and, once released, the announce
+// is answered with *its* transaction ID: no request's bytes are disturbed by the requests that overlap it.
+func udpOverlap(c *Ctx, prelude string, burst int) {
+	op := fmt.Sprintf("udp.overlap prelude=%s burst=%d", prelude, burst)
+	c.Begin(op)
+	obs := func() (o string) {
+		defer func() {
+			if p := recover(); p != nil {
+				o = "PANIC " + strings.Fields(fmt.Sprint(p))[0]
+			}
+		}()
+		ps, lg := newStoreLogic()
+		defer func() { <-ps.Stop() }()
+		hl := &holdLogic{inner: lg, hold: make(chan struct{})}
+		pc, err := net.ListenUDP("udp", &net.UDPAddr{IP: net.IPv4(127, 0, 0, 1)})
+		if err != nil {
+			return "no-port"
+		}
+		port := pc.LocalAddr().(*net.UDPAddr).Port
+		pc.Close()
+		fe, err := udpfe.NewFrontend(hl, udpfe.Config{Addr: fmt.Sprintf("127.0.0.1:%d", port), PrivateKey: udpKey, MaxClockSkew: 10 * time.Second})
+		if err != nil {
+			return "new-failed"
+		}
+		released := false
+		defer func() {
+			if !released {
+				close(hl.hold)
+			}
+			<-fe.Stop()
+		}()
+		cl, _ := net.DialUDP("udp", nil, &net.UDPAddr{IP: net.IPv4(127, 0, 0, 1), Port: port})
+		defer cl.Close()
+		buf := make([]byte, 4096)
+		connect := func(tx uint32) []byte {
+			b := []byte{0, 0, 0x04, 0x17, 0x27, 0x10, 0x19, 0x80, 0, 0, 0, 0, 0, 0, 0, 0}
+			binary.BigEndian.PutUint32(b[12:], tx)
+			return b
+		}
+		var connID []byte
+		for i := 0; i < 200 && connID == nil; i++ {
+			_, _ = cl.Write(connect(1))
+			_ = cl.SetReadDeadline(time.Now().Add(20 * time.Millisecond))
+			if n, err := cl.Read(buf); err == nil && n == 16 {
+				connID = append([]byte{}, buf[8:16]...)
+			}
+		}
+		if connID == nil {
+			return "never-served"
+		}
+		for _, k := range strings.Split(prelude, ",") {
+			switch k {
+			case "E":
+				_, _ = cl.Write([]byte{})
+			case "S":
+				_, _ = cl.Write([]byte{1, 2, 3})
+			}
+		}
+		time.Sleep(20 * time.Millisecond)
+		ann := udpAnnouncePacket(connID)
+		copy(ann[12:16], []byte{0xAA, 0xBB, 0xCC, 0xDD})
+		_, _ = cl.Write(ann)
+		for i := 0; i < 500 && atomic.LoadInt32(&hl.entered) == 0; i++ {
+			time.Sleep(time.Millisecond)
+		}
+		if atomic.LoadInt32(&hl.entered) == 0 {
+			return "announce-not-entered"
+		}
+		okConn, bad := 0, 0
+		for i := 0; i < burst; i++ {
+			tx := uint32(0x1000 + i)
+			_, _ = cl.Write(connect(tx))
+			_ = cl.SetReadDeadline(time.Now().Add(300 * time.Millisecond))
+			n, err := cl.Read(buf)
+			switch {
+			case err != nil:
+				bad++
+			case n == 16 && binary.BigEndian.Uint32(buf[:4]) == 0 && binary.BigEndian.Uint32(buf[4:8]) == tx:
+				okConn++
+			default:
+				bad++
+			}
+		}
+		released = true
+		close(hl.hold)
+		annOK := false
+		_ = cl.SetReadDeadline(time.Now().Add(time.Second))
+		if n, err := cl.Read(buf); err == nil && n >= 20 && binary.BigEndian.Uint32(buf[:4]) == 1 && string(buf[4:8]) == "\xaa\xbb\xcc\xdd" {
+			annOK = true
+		}
+		return fmt.Sprintf("connects_ok=%d bad=%d announce_answered_with_its_tx=%s", okConn, bad, b01(annOK))
+	}()
+	c.Emit(op, obs)
+}
+
 func genServed(c *Ctx, r *Rng, n int) {
+	for _, pre := range []string{"-", "E", "E,E,S", "S"} {
+		udpOverlap(c, pre, 8)
+	}
 	kinds := []string{"E", "S", "M", "G", "U", "C", "A", "X"}
 	for i := 0; i < n; i++ {
 		var seq []string
